@@ -105,7 +105,8 @@ def _norm(x: t.Any) -> t.Any:
 
 
 def spec_key(spec: t.Any) -> str:
-    return hashlib.sha1(codec.dumps(_norm(spec)).encode()).hexdigest()[:10]
+    # the codec keeps tuple / list apart: data inside a spec (defaults, hook operands) differs by that
+    return hashlib.sha1(codec.dumps(spec).encode()).hexdigest()[:10]
 
 
 def _has_structured(n: Node) -> bool:
